@@ -54,6 +54,8 @@ fn main() {
         let writes: HashMap<u64, (u64, u64, u64, bool, bool)> = log.iter().filter_map(|e| if let Ev::Write { k, id, c, r, ok, upd } = e { Some((*id, (*k, *c, *r, *ok, *upd))) } else { None }).collect();
         let clears: Vec<(u64, u64)> = log.iter().filter_map(|e| if let Ev::Clear { c, r } = e { Some((*c, *r)) } else { None }).collect();
         let waits: Vec<(u64, u64)> = log.iter().filter_map(|e| if let Ev::Wait { c, r, ok: true } = e { Some((*c, *r)) } else { None }).collect();
+        let mut seen_at: HashMap<u64, u64> = HashMap::new();
+        for e in log.iter() { match e { Ev::Read { r, got: Some(id), .. } => { let x = seen_at.entry(*id).or_insert(u64::MAX); *x = (*x).min(*r); } Ev::Write { id, r, ok: true, upd: true, .. } => { let x = seen_at.entry(*id).or_insert(u64::MAX); *x = (*x).min(*r); } _ => {} } }
         let cbs = cb.0.lock().unwrap().clone(); let mut dumped = false; let mut fail = |m: String| { bad += 1; if bad < 8 { println!("round {round}: {m}"); } };
         for e in log.iter() {
             if let Ev::Read { k, c: rc, r: rr, got } = e {
@@ -66,6 +68,7 @@ fn main() {
                     for x in log.iter() {
                         match x {
                             Ev::Remove { k: xk, c: xc, r: xr, ok: true } if xk == k && wr < xc => { r3_checked += 1; if waits.iter().any(|(wtc, wtr)| wtc > xr && wtr < rc && !clears.iter().any(|(cc, cr)| cc <= wtr && cr >= xc)) { fail(format!("R3 stale after applied remove: key {k} value {id:#x} write_ret={wr} remove=({xc},{xr}) read=({rc},{rr})")); if !dumped { dumped = true; let mut evs: Vec<(u64, String)> = log.iter().filter_map(|e| match e { Ev::Write{k: kk, c, ..} if kk == k => Some((*c, format!("{e:?}"))), Ev::Remove{k: kk, c, ..} if kk == k => Some((*c, format!("{e:?}"))), Ev::Read{k: kk, c, ..} if kk == k => Some((*c, format!("{e:?}"))), Ev::Clear{c, ..} => Some((*c, format!("{e:?}"))), Ev::Wait{c, ..} => Some((*c, format!("{e:?}"))), _ => None }).collect(); for (t, id2) in cbs.iter() { if id2 >> 48 == *k { evs.push((*t, format!("callback id={id2:#x}"))); } } evs.sort(); for (t, d) in evs.iter().filter(|(t, _)| *t <= *rr + 5) { println!("   {t}: {d}"); } } } }
+                            Ev::Remove { k: xk, c: xc, r: xr, ok: true } if xk == k && *xr < *rc && seen_at.get(id).map_or(false, |t| t < xc) => { r3_checked += 1; fail(format!("R3' value {id:#x} observably resident before remove=({xc},{xr}) returned by read=({rc},{rr})")); }
                             Ev::Clear { c: xc, r: xr } if wr < xc && xr < rc => { r3_checked += 1; fail(format!("R3 stale after clear: key {k} value {id:#x} write_ret={wr} clear=({xc},{xr}) read=({rc},{rr})")); }
                             _ => {}
                         }
